@@ -96,6 +96,14 @@ def check_table_roles(cx: Cx, ob: Ob, tables_wanted: list[str]) -> None:
                             detail=f"{table}:partial:{f}",
                         )
                         continue
+                    if isinstance(c[0], tuple) and c[0][:1] == ("bypass",):
+                        ob.violate(
+                            good[0].fn,
+                            good[0].site,
+                            f"`{f}` does not enter `{table}` on every call: an earlier `return` (line {', '.join(map(str, c[0][1]))}) leaves the function before this statement",
+                            detail=f"{table}:conditional:{f}",
+                        )
+                        continue
                     ob.violate(
                         good[0].fn,
                         good[0].site,
